@@ -41,8 +41,10 @@ func c18paths(c *Ctx) {
 		// drive-letter path seen on another system)
 		"github.com/acme/private", "../private-checkout", "C:/work/src",
 		// long directory names (a CI workspace, a content-addressed store): 63, 64, 65, 128 and 300 bytes
+		// a mapping whose replacement is itself a path under ANOTHER registered directory (an alias, a bind mount)
+		"/w",
 		"/ci/" + strings.Repeat("w", 59), "/ci/" + strings.Repeat("x", 60), "/ci/" + strings.Repeat("y", 61), "/store/" + strings.Repeat("0123456789abcdef", 7) + "/objects", "/deep/" + strings.Repeat("segment-of-a-long-path/", 12) + "end"}
-	replPool := []string{"~d", "~p", "$SRV", "~w", "~alice", "CI:", "~deep", "~gosrc", "~work", "~tmp", "~u", "~bin", "~ws", "~stage", "~brace", "", "", "GH:acme", "~pc", "W:", "~L63", "~L64", "~L65", "~store", "~long"}
+	replPool := []string{"~d", "~p", "$SRV", "~w", "~alice", "CI:", "~deep", "~gosrc", "~work", "~tmp", "~u", "~bin", "~ws", "~stage", "~brace", "", "", "GH:acme", "~pc", "W:", "/srv/data/projects/work", "~L63", "~L64", "~L65", "~store", "~long"}
 	if len(prefixPool) != len(replPool) {
 		panic("harness: prefixPool and replPool differ in length")
 	}
@@ -106,8 +108,29 @@ func c18paths(c *Ctx) {
 		var hist []string
 		nops := r.Intn(12)
 		added := map[string]bool{}
+		idxOf := func(k string) int {
+			for i, x := range prefixPool {
+				if x == k {
+					return i
+				}
+			}
+			return 0
+		}
 		for i := 0; i < nops; i++ {
-			switch r.Intn(9) {
+			switch r.Intn(10) {
+			case 9:
+				// a directory is registered while one of its parents is, then the parent's registration is removed: the inner
+				// directory is still a registered one
+				pair := gen.Pick(r, [][2]string{{"/srv", "/srv/data"}, {"/srv/data", "/srv/data/projects"}, {"/srv/data/projects", "/srv/data/projects/deep/er"}, {"/mnt/vol1/users/alice", "/mnt/vol1/users/alice/empty"}})
+				for _, k := range pair {
+					slog.AddKnownPathMapping(k, replPool[idxOf(k)])
+					table[k] = replPool[idxOf(k)]
+					added[k] = true
+				}
+				slog.RemoveKnownPathMapping(pair[0])
+				delete(table, pair[0])
+				hist = append(hist, "add "+pair[0], "add "+pair[1], "remove "+pair[0])
+				c.R.Add("histories_that_remove_the_parent_of_a_registered_directory", 1)
 			case 0, 1, 2:
 				k := r.Intn(len(prefixPool))
 				slog.AddKnownPathMapping(prefixPool[k], replPool[k])
@@ -259,6 +282,10 @@ func c18paths(c *Ctx) {
 			}
 			ok := judgeCaller("native call", f, evs)
 			if ok {
+				// ... from a function small enough to be inlined into this one (the frame of the record is an inlined one)
+				ok = judgeCaller("native call from an inlined function", f, capture(log, func() { c18inlined(lg) }))
+			}
+			if ok {
 				sl := stdslog.New(frontH)
 				ok = judgeCaller("log/slog handler built before the flag was switched on", fFront, capture(log, func() { sl.Info("caller-path-probe") }))
 				c.R.Add("caller_fields_checked_through_front_ends_built_earlier", 1)
@@ -270,6 +297,9 @@ func c18paths(c *Ctx) {
 		}
 	})
 }
+
+// c18inlined is small enough for the compiler to inline it into its caller.
+func c18inlined(lg *slog.Entry) { lg.Info("caller-path-probe") }
 
 func rxNames(rxs []rxMap) []string {
 	var s []string
@@ -301,6 +331,21 @@ func c18judge(p, got string, privacy, rxFlag bool, table map[string]string, rxs 
 					protected = k
 				}
 			}
+		}
+		// a short form may itself lie under another registered directory: then that mapping's short form may lead the
+		// result as well (whether it does depends on the order in which the table is walked)
+		frontier := []string{p}
+		for depth := 0; depth < 3; depth++ {
+			var next []string
+			for _, cur := range frontier {
+				for k, v := range table {
+					if k != "" && strings.HasPrefix(cur, k) {
+						shortForms = append(shortForms, v)
+						next = append(next, v+cur[len(k):])
+					}
+				}
+			}
+			frontier = next
 		}
 	}
 	if protected != "" {
